@@ -25,13 +25,28 @@ def _enter(name):
     ENTERED.add(name)
 
 
+def _subst(obj):
+    for real, stub in REPLACEMENTS:
+        if obj is real:
+            return stub
+    for pred, fac in TYPE_REPLACEMENTS:
+        try:
+            if pred(obj):
+                return fac(obj)
+        except Exception:
+            pass
+    return obj
+
+
 SYM.enter = _enter
+SYM.subst = _subst
 
 
 class Rewriter(ast.NodeTransformer):
     def __init__(self, modname):
         self.modname = modname
         self.scope = []
+        self.infunc = 0
 
     # ---- do not touch annotations
     def visit_AnnAssign(self, node):
@@ -43,10 +58,48 @@ class Rewriter(ast.NodeTransformer):
     def visit_arg(self, node):
         return node
 
+    def _stmts(self, body):
+        out = []
+        for s in body:
+            r = self.visit(s)
+            if isinstance(r, list):
+                out.extend(r)
+            elif r is not None:
+                out.append(r)
+        return out
+
+    def _local_import(self, node):
+        """imports executed inside a function bind real objects at run time: route them through
+        the same replacement table as the module-level imports"""
+        if not self.infunc:
+            return node
+        out = [node]
+        for al in node.names:
+            if al.name == "*":
+                continue
+            name = (al.asname or al.name).split(".")[0]
+            out.append(ast.copy_location(ast.Assign(
+                targets=[ast.Name(id=name, ctx=ast.Store())],
+                value=ast.Call(func=ast.Attribute(value=ast.Name(id="__sym__", ctx=ast.Load()), attr="subst", ctx=ast.Load()),
+                               args=[ast.Name(id=name, ctx=ast.Load())], keywords=[])), node))
+        return out
+
+    def visit_Import(self, node):
+        return self._local_import(node)
+
+    def visit_ImportFrom(self, node):
+        return self._local_import(node)
+
+    def generic_visit(self, node):
+        # statement lists may grow (local imports)
+        return super().generic_visit(node)
+
     def _func(self, node):
         self.scope.append(node.name)
         qn = ".".join(self.scope)
-        node.body = [self.visit(s) for s in node.body]
+        self.infunc += 1
+        node.body = self._stmts(node.body)
+        self.infunc -= 1
         node.decorator_list = [self.visit(d) for d in node.decorator_list]
         # defaults are ordinary expressions
         node.args.defaults = [self.visit(d) for d in node.args.defaults]
